@@ -21,7 +21,7 @@ def gen_elem(rnd, opt):
         w = rnd.choice([1, 1, 2, 3]); t = '$' * w
         k = rnd.random()
         if k < .5: return t
-        if k < .7: return t + '@' + str(rnd.choice([0, 2, 3, 10]))
+        if k < .7: return t + '@' + str(rnd.choice([0, 2, 3, 10, 98, 999]))
         if k < .85: return t + '@-'
         return t + '@-' + str(rnd.choice([0, 2, 5]))
     if rnd.random() >= opt.get('p_noname', .1):
